@@ -51,6 +51,9 @@ def _history(subject):
     adv = st.fixed_dictionaries({'op': st.just('adv'), 'ms': st.sampled_from([0, 1, 2, 4, 5, 6, 49, 50, 51, 3999, 4000, 4001])})
     reply = st.fixed_dictionaries({'op': st.just('reply'), 'k': st.integers(0, 7)})
     ops = [attach, attach, attach_dup, detach, detach_k, interest, interest_k, interest_k, adv]
+    if subject == 'legacy':
+        ops += [st.fixed_dictionaries({'op': st.just('fwd-legacy'), 'k': st.integers(0, 7),
+                                       'reply': st.sampled_from(['ok-body', 'err-body', 'nack', 'silence', 'err-nobody'])})]
     if subject == 'v2':
         fwd = st.fixed_dictionaries({'op': st.just('fwd'), 'which': st.sampled_from(['register', 'unregister', 'unregister']),
                                      'k': st.integers(0, 7)})
@@ -345,6 +348,43 @@ def _run(subj, sim, ops, r):
                 r.bad(f'C04/v2/{op["which"]}-returned/{ret!r}', 'the registerer answered True')
             flags.add('forwarder-command')
             trace.append('F' if op['which'] == 'register' else 'U')
+        elif k == 'fwd-legacy':
+            # legacy only: register(P, None) - "only send the register command to the forwarder, without setting any callback" -
+            # for a prefix that HAS a handler already, answered by success or by a failure (status 403, Nack, silence): whatever
+            # the forwarder says, the dispatch table is none of its business
+            if subj != 'legacy' or down or not attached_order:
+                continue
+            import asyncio as _aio
+            from .c17_registration import reply_wire as _reply_wire
+            from .. import pkt as _P
+            key = attached_order[op['k'] % len(attached_order)]
+            if not key:
+                continue
+            before = len(sim.face.sent)
+
+            async def _go():
+                return _aio.get_running_loop().create_task(sim.app.register(list(key), None))
+            try:
+                t_reg = sim.vl.run(_go())
+                sim.vl.settle()
+                cmds = [bytes(w_) for w_ in sim.face.sent[before:] if net.outer_type(bytes(w_)) == 5]
+                if cmds:
+                    ans = _reply_wire(op['reply'], cmds[0], _P.strict_interest(cmds[0])['name'], list(key))
+                    if ans is not None:
+                        sim.deliver(ans, 'task')
+                sim.vl.advance(1.05 if op['reply'] == 'silence' else 0.01)
+                if not t_reg.done():
+                    sim.vl.advance(1.1)
+                ret = t_reg.result() if t_reg.done() else 'pending'
+            except Exception as e:
+                r.bad(f'C04/legacy/register-without-callback-raised/{exc_site(e)}', repr(e))
+                return
+            want_ret = op['reply'] in ('ok-body', 'ok-nobody')
+            if ret is not want_ret:
+                r.bad(f'C04/legacy/register-without-callback-returned/{ret!r}/{op["reply"]}', '')
+                return
+            flags.add('forwarder-command' if want_ret else 'forwarder-command-refused')
+            trace.append('F' if want_ret else 'F!')
         elif k == 'adv':
             if sim is not None and not down:
                 sim.vl.advance(op['ms'] / 1000)
